@@ -5,10 +5,10 @@ What is modelled (C anchors in brackets; line numbers are those of /repo at the 
 correspondence check does not rely on them, it compares the *ordered list of calls* made by these functions,
 recorded at run time, with `Trace.ran`):
 
-* `main` of gensquashfs [bin/gensquashfs/src/mkfs.c:96-179] and of tar2sqfs [bin/tar2sqfs/src/tar2sqfs.c:9-55]:
+* `main` of gensquashfs [bin/gensquashfs/src/mkfs.c:96-212] and of tar2sqfs [bin/tar2sqfs/src/tar2sqfs.c:9-55]:
   `int status = EXIT_FAILURE` [mkfs.c:98, tar2sqfs.c:14], the sequence of fallible calls each followed by
-  `goto out` / `return EXIT_FAILURE`, the single assignment `status = EXIT_SUCCESS` [mkfs.c:170, tar2sqfs.c:49]
-  and `out: sqfs_writer_cleanup(&sqfs, status)` [mkfs.c:172, tar2sqfs.c:51].
+  `goto out` / `return EXIT_FAILURE`, the single assignment `status = EXIT_SUCCESS` [mkfs.c:202, tar2sqfs.c:49]
+  and `out: sqfs_writer_cleanup(&sqfs, status)` [mkfs.c:204, tar2sqfs.c:51].
 * `pack_files` [mkfs.c:55-94] (chdir into the pack directory, then per file: path reconstruction, `pack_file`)
   and `process_tarball` [bin/tar2sqfs/src/process_tarball.c:147-246] (per entry: `it->next`, `it->read_link` for
   links, `set_root_attribs` / `create_node_and_repack_data` unless the entry is filtered out by --root-becomes).
@@ -26,17 +26,22 @@ A run is a walk over the *fallible call sites* (`Site`) in program order.  A fau
 entry per executed site, missing entries = no fault) says which sites report failure.  What a site does when
 it fails is its `Reaction`.  `Variant` selects the source that is modelled:
 
-  `Variant.current`  = /repo as it is now.  Every result of the skeleton is tested, a failing
-                       `sqfs_writer_init` removes the output file — the repairs C13-init-unlink,
-                       C13-export-table-result, C13-sparse-tail-result are part of the source.
-                       KNOWN DEFECT: `sqfs_writer_cleanup` unlinks `sqfs->filename` *as given on the command
-                       line*; after `chdir(opt->packdir)` a relative name no longer designates the output file
-                       (`Variant.outPathAbsolute = false`).
-  `Variant.fixed`    = /repo + fixes/C13-relative-output-with-packdir.patch: when a pack directory is given,
-                       `main` resolves the output name with `realpath` right after `sqfs_writer_init`
-                       (new fallible site `realpathOut`) and the cleanup uses the absolute name.
-  `Variant.snapshot` = the source as first pinned (before the three repairs above); kept for the regression
-                       witnesses in Sqfs/Witness/C13.lean.
+  `Variant.current`  = /repo as it is now (HEAD d69b61b).  Every result of the skeleton is tested, a failing
+                       `sqfs_writer_init` removes the output file, and — since b5ce20d — `main` of gensquashfs
+                       resolves the output name with `realpath` right after `sqfs_writer_init` when a pack
+                       directory is given (fallible site `realpathOut`) and the cleanup unlinks that absolute
+                       name [mkfs.c:110-127].
+                       KNOWN DEFECT: rdsquashfs prints the results of -l / -s / -d / -x through stdio and never
+                       looks at `fflush` / `ferror`: what the exit-time flush of libc cannot write is lost and
+                       the exit status is 0 (`Variant.stdoutChecked = false`, `RResult.stdoutLost`).
+  `Variant.fixed`    = /repo + fixes/C13-check-stdout-errors.patch: `main` of rdsquashfs tests
+                       `fflush(stdout)` / `ferror(stdout)` before `status = EXIT_SUCCESS` (new fallible site
+                       `rStdoutFlush`).
+  `Variant.beforeRealpath` = the source before b5ce20d: `sqfs_writer_cleanup` unlinks `sqfs->filename` *as given
+                       on the command line*; after `chdir(opt->packdir)` a relative name no longer designates the
+                       output file.  Kept for the regression witnesses in Sqfs/Witness/C13.lean.
+  `Variant.snapshot` = the source as first pinned (before the three result-checking repairs); regression
+                       witnesses only.
 
   IGNORED RESULTS THAT EXIST IN THE SOURCE (skeleton level)
   * lib/sqfs/src/block_processor/ostream.c:52-55 (`stream_destroy`) ignores `sqfs_block_processor_end_file`;
@@ -80,7 +85,7 @@ inductive Site
   | dmCreate                  -- → sqfs_meta_writer_create (2nd, directories)
   | dirwrCreate               -- → sqfs_dir_writer_create
   -- mkfs.c main
-  | realpathOut               -- main → realpath(opt.cfg.filename)   (only with fixes/C13-relative-output-with-packdir.patch)
+  | realpathOut               -- main → realpath(opt.cfg.filename)   (when a pack directory is given; mkfs.c:118, since b5ce20d)
   | selinuxOpen               -- main → selinux_open_context_file
   | xattrMapOpen              -- main → xattr_open_map_file
   | sortfileOpen              -- main → sqfs_istream_open_file
@@ -142,6 +147,7 @@ inductive Site
   | rAttribs                  -- main → update_tree_attribs            (-u)
   | rDescribe                 -- main → describe_tree                  (-d)
   | rDumpXattrs               -- main → dump_xattrs                    (-x)
+  | rStdoutFlush              -- main → fflush(stdout) / ferror(stdout)  (only with fixes/C13-check-stdout-errors.patch)
   deriving DecidableEq, Repr, Inhabited
 
 /-- Progress messages on stdout (`!cfg->quiet`), finish.c:105,114,122,133,149,160. -/
@@ -175,12 +181,14 @@ structure Variant where
   initUnlinks : Bool        -- a failing sqfs_writer_init removes the output file        (in /repo since C13-init-unlink)
   exportChecked : Bool      -- the result of add_export_table_entry(root) is returned    (in /repo since C13-export-table-result)
   sparseTailChecked : Bool  -- backend.c: set_block_size result for an all-zero tail     (in /repo since C13-sparse-tail-result; block processor layer)
-  outPathAbsolute : Bool    -- fixes/C13-relative-output-with-packdir.patch              (NOT in /repo yet)
+  outPathAbsolute : Bool    -- mkfs.c:110-127 realpath of the output name                (in /repo since b5ce20d)
+  stdoutChecked : Bool      -- rdsquashfs.c: fflush/ferror of stdout tested before exit 0 (fixes/C13-check-stdout-errors.patch; pending)
   deriving Repr, DecidableEq
 
-def Variant.snapshot : Variant := ⟨false, false, false, false⟩
-def Variant.current : Variant := ⟨true, true, true, false⟩
-def Variant.fixed : Variant := ⟨true, true, true, true⟩
+def Variant.snapshot : Variant := ⟨false, false, false, false, false⟩
+def Variant.beforeRealpath : Variant := ⟨true, true, true, false, false⟩
+def Variant.current : Variant := ⟨true, true, true, true, false⟩
+def Variant.fixed : Variant := ⟨true, true, true, true, true⟩
 
 inductive Reaction
   | abort                  -- the failure is returned and the caller leaves the phase
@@ -236,7 +244,7 @@ def says (quiet : Bool) (s : Site) : List Msg :=
   if quiet then [] else match announce s with | some m => [m] | none => []
 
 /-- State change of a site that succeeds, besides the bookkeeping: mkfs.c:61 `chdir(opt->packdir)` moves the
-    process; the repaired `main` remembers the absolute output name. -/
+    process; `main` remembers the absolute output name [mkfs.c:126 `sqfs.filename = abs_filename`]. -/
 def effect (c : Cfg) (s : Site) (t : Trace) : Trace :=
   match s with
   | .chdirPack => { t with cwd := if c.packDirIsCwd then t.cwd else .pack }
@@ -283,7 +291,7 @@ def tarSites : List TarEnt → Nat → List Site
   | e :: rest, i =>
     .tarNext i :: ((if e.link then [.tarReadLink i] else []) ++ (if e.skipped then [] else [.tarEntry i]) ++ tarSites rest (i + 1))
 
-/-- mkfs.c:110-165 / tar2sqfs.c:40-44 -/
+/-- mkfs.c:110-197 / tar2sqfs.c:40-44 -/
 def bodySites (v : Variant) (c : Cfg) : List Site :=
   match c.tool with
   | .gensquashfs =>
@@ -343,19 +351,19 @@ def run (v : Variant) (c : Cfg) (fs : List Bool) : Result :=
   match runSites v c 0 (preSites c) fs {} with
   | (false, _, t) => ⟨status, .never, false, false, none, t⟩
   | (true, fs, t) =>
-  -- if (sqfs_writer_init(&sqfs, &cfg)) return EXIT_FAILURE / goto out_it;   mkfs.c:107  tar2sqfs.c:37
+  -- if (sqfs_writer_init(&sqfs, &cfg)) return EXIT_FAILURE / goto out_it;   mkfs.c:108  tar2sqfs.c:37
   match runSites v c 0 (initSites c) fs t with
   | (false, _, t) => ⟨status, (afterFailedInit v c t).1, false, false, (afterFailedInit v c t).2, t⟩
   | (true, fs, t) =>
-  -- every failing call of the body does `goto out`                          mkfs.c:110-165  tar2sqfs.c:40-44
+  -- every failing call of the body does `goto out`                          mkfs.c:110-197  tar2sqfs.c:40-44
   match runSites v c 0 (bodySites v c) fs t with
   | (false, _, t) => ⟨status, (cleanup c status t).1, true, false, (cleanup c status t).2, t⟩
   | (true, fs, t) =>
-  -- if (sqfs_writer_finish(&sqfs, &cfg)) goto out;                          mkfs.c:167  tar2sqfs.c:46
+  -- if (sqfs_writer_finish(&sqfs, &cfg)) goto out;                          mkfs.c:199  tar2sqfs.c:46
   match runSites v c 0 (finishSites c) fs t with
   | (false, _, t) => ⟨status, (cleanup c status t).1, true, false, (cleanup c status t).2, t⟩
   | (true, _, t) =>
-  -- status = EXIT_SUCCESS;  out: sqfs_writer_cleanup(&sqfs, status);        mkfs.c:170-172  tar2sqfs.c:49-51
+  -- status = EXIT_SUCCESS;  out: sqfs_writer_cleanup(&sqfs, status);        mkfs.c:202-204  tar2sqfs.c:49-51
   let status := 0
   ⟨status, (cleanup c status t).1, true, true, (cleanup c status t).2, t⟩
 
@@ -375,7 +383,16 @@ def sitePos (v : Variant) (c : Cfg) (s : Site) : Option Nat :=
 
 `main` of both is one flat list of fallible calls, each followed by `goto out`; `status = EXIT_SUCCESS` is
 assigned in one place, after the last of them [sqfs2tar.c:187, rdsquashfs.c:274].  Nothing is removed on failure
-(the output is standard output, or an unpacked tree that is left as far as it got). -/
+(the output is standard output, or an unpacked tree that is left as far as it got).
+
+Standard output.  sqfs2tar and `rdsquashfs -c` write their result with `write(2)` on a duplicate of descriptor 1
+(`ostream_open_stdout`): every result is tested (sites `sEntry`, `sTerminate`, `sFlush`, `rSplice`).
+`rdsquashfs -l / -s / -d / -x` print through stdio [list_files.c, stat.c, describe.c, dump_xattrs.c: printf / fputs /
+fwrite, no result looked at]: the bytes reach the descriptor when the buffer fills up or, at the latest, when libc
+flushes at exit — after `main` has returned its status.  /repo as it is never calls `fflush` / `ferror`
+(`Variant.stdoutChecked = false`): a write error on standard output (no space, closed descriptor, EPIPE with SIGPIPE
+ignored) is lost, the exit status stays 0 (`RResult.stdoutLost`).  The repaired `main` tests
+`fflush(stdout) != 0 || ferror(stdout)` in front of `status = EXIT_SUCCESS` — one more site, `rStdoutFlush`. -/
 
 inductive RdOp | ls | stat | cat | unpack | describe | rdattr
   deriving DecidableEq, Repr
@@ -399,7 +416,12 @@ def spliceSites : Nat → Nat → List Site
   | 0, _ => []
   | n + 1, i => .rSplice i :: spliceSites n (i + 1)
 
-def readerSites (c : RCfg) : List Site :=
+/-- Does the operation hand its *result* to stdio (`printf` & co. on `stdout`)?  rdsquashfs -l, -s, -d, -x.
+    (`-c` and sqfs2tar use `write(2)` through an ostream; `-u` prints progress lines only.) -/
+def printsResults (c : RCfg) : Bool :=
+  !c.sqfs2tar && (c.op == .ls || c.op == .stat || c.op == .describe || c.op == .rdattr)
+
+def readerSites (v : Variant) (c : RCfg) : List Site :=
   if c.sqfs2tar then
     [.sOpenStdout] ++ (if c.compressed then [.sXfrmCreate, .sXfrmWrap] else []) ++ [.sIterCreate]
     ++ (if c.noLinks then [] else [.sHlFilter]) ++ sEntrySites c.nentries 0 ++ [.sTerminate, .sFlush]
@@ -413,17 +435,21 @@ def readerSites (c : RCfg) : List Site :=
         | .unpack => [.rTreeSort] ++ (if c.unpackRoot then [.rMkdirP, .rChdir] else []) ++ [.rRestore, .rFill, .rAttribs]
         | .describe => [.rDescribe]
         | .rdattr => [.rDumpXattrs])
+    -- fixes/C13-check-stdout-errors.patch: `if (fflush(stdout) != 0 || ferror(stdout)) { perror("stdout"); goto out; }`
+    ++ (if v.stdoutChecked then [.rStdoutFlush] else [])
 
 structure RResult where
   status : Nat
   trace : Trace
+  stdoutLost : Bool    -- results handed to stdio could not be written and nobody noticed (exit-time flush of libc)
   deriving Repr, DecidableEq
 
 /-- `main` of sqfs2tar / rdsquashfs: `status = EXIT_FAILURE`, the calls in order, `status = EXIT_SUCCESS` behind
-    the last one. -/
-def runReader (c : RCfg) (fs : List Bool) : RResult :=
-  match runSites .current {} 0 (readerSites c) fs {} with
-  | (false, _, t) => ⟨1, t⟩
-  | (true, _, t) => ⟨0, t⟩
+    the last one.  After `main` has returned libc flushes `stdout`; the script entry behind the last site says
+    whether that write fails.  In the repaired source the buffer is empty by then (`rStdoutFlush` succeeded). -/
+def runReader (v : Variant) (c : RCfg) (fs : List Bool) : RResult :=
+  match runSites v {} 0 (readerSites v c) fs {} with
+  | (false, _, t) => ⟨1, t, false⟩
+  | (true, fs', t) => ⟨0, t, printsResults c && !v.stdoutChecked && fs'.headD false⟩
 
 end Sqfs.FailStop
